@@ -90,3 +90,13 @@ Definition unelems (v : val) : list (list Z * bool) :=
   map (fun e => (unVLZ (nth_arg e 0), negb (unVI (nth_arg e 1) =? 0))) (unVL v).
 Definition vnames (l : list (list Z)) : val := VL (map vlistZ l).
 
+
+Fixpoint untree (fuel : nat) (v : val) : tree :=
+  match fuel with
+  | O => Leaf
+  | S f =>
+    match v with
+    | VL [VI 1; VL ch] => Dir (map (fun c => (unVLZ (nth 0 (unVL c) (VI 0)), untree f (nth 1 (unVL c) (VI 0)))) ch)
+    | _ => Leaf
+    end
+  end.
